@@ -1,7 +1,7 @@
 (* C13 -- property theorems only.  Proofs live in C13/Proofs*.v. *)
 From Coq Require Import NArith List Sorted.
 From DV Require Import Base.Outcome Base.Bytes Base.Lex Base.Names C11.Sha C13.Gen C13.Model
-  C13.ProofsBitmap C13.ProofsNames C13.ProofsNsec2 C13.ProofsDeny C13.ProofsGroups C13.ProofsN3c C13.ProofsN3d C13.ProofsN3e C13.ProofsN3f C13.ProofsDedup C13.ProofsTtl C13.ModelLabel C13.ProofsLabel C13.ProofsIter C13.ProofsTtl3 C13.ProofsOrder C13.ProofsReparse.
+  C13.ProofsBitmap C13.ProofsNames C13.ProofsNsec2 C13.ProofsDeny C13.ProofsGroups C13.ProofsN3c C13.ProofsN3d C13.ProofsN3e C13.ProofsN3f C13.ProofsDedup C13.ProofsTtl C13.ModelLabel C13.ProofsLabel C13.ProofsIter C13.ProofsTtl3 C13.ProofsOrder C13.ProofsReparse C13.ProofsW.
 Import ListNotations.
 Local Open Scope N_scope.
 
@@ -246,3 +246,57 @@ Theorem C13_nsec3_sha1_owner_order : forall a b i s apex,
     name_cmp o1 o2 = lex_cmp (c13_hash a i s) (c13_hash b i s).
 Proof. exact nsec3_sha1_owner_order. Qed.
 Print Assumptions C13_nsec3_sha1_owner_order.
+
+Theorem C13_nsec_apex_first_cycle : forall apex z dk out,
+  zone_sorted z -> owner_in z apex -> generate_nsecs apex dk z = Ok out ->
+  (exists r rest, out = r :: rest /\ name_eqb (n_owner r) apex = true /\
+                  n_next (last out r) = apex) /\
+  (forall r, In r out -> exists r', In r' out /\ name_eqb (n_owner r') (n_next r) = true).
+Proof. exact nsec_apex_first_cycle. Qed.
+Print Assumptions C13_nsec_apex_first_cycle.
+
+Theorem C13_nsec3_ring_permutation : forall H apex c z out, generate_nsec3s H apex c z = Ok out ->
+  NoDup (map h_owner out) /\ Permutation.Permutation (map h_next out) (map h_owner out) /\
+  (forall r, In r out -> exists r', In r' out /\ h_owner r' = h_next r) /\
+  (forall r, In r out -> exists r', In r' out /\ h_next r' = h_owner r).
+Proof. exact nsec3_ring_permutation. Qed.
+Print Assumptions C13_nsec3_ring_permutation.
+
+Theorem C13_sorted_records_nsec3_end_to_end : forall H l apex c out,
+  generate_nsec3s H apex c (strip (sorted_records l)) = Ok out ->
+  (forall x, (exists r, In r out /\ h_owner r = x) <->
+     (exists n, (included apex (strip l) (optout_excl c) n \/ ent3 apex (strip l) (optout_excl c) n) /\
+                x = nsec3_hash H n (c_iters c) (c_salt c))) /\
+  StronglySorted (fun a b => lex_cmp (h_owner a) (h_owner b) = Lt) out /\
+  map h_next out = tl (map h_owner out) ++ [hd [] (map h_owner out)] /\
+  no_panic (generate_nsec3s H apex c (strip (sorted_records l))).
+Proof. exact sorted_records_nsec3_end_to_end. Qed.
+Print Assumptions C13_sorted_records_nsec3_end_to_end.
+
+Theorem C13_nsec3_denies_local : forall H apex c z out,
+  zone_sorted z -> types_ok z -> generate_nsec3s H apex c z = Ok out ->
+  forall n,
+  (forall a, included apex z (optout_excl c) a -> hashn H c a = hashn H c n -> name_eqb a n = true) ->
+  forall t, ~ has_type z n t -> t <> 46 ->
+    ~ (name_eqb n apex = true /\ (t = 51 \/ (c_dnskey c = true /\ t = 48))) ->
+    exists r, In r out /\
+      ((h_owner r = hashn H c n /\ bm_contains (h_types r) t = Ok false) \/ h3_covers r (hashn H c n)).
+Proof. exact nsec3_denies_local. Qed.
+Print Assumptions C13_nsec3_denies_local.
+
+Theorem C13_sorted_records_denies : forall H l apex dk c,
+  types_ok (strip l) ->
+  (forall out, generate_nsecs apex dk (strip (sorted_records l)) = Ok out -> owner_in (strip l) apex ->
+     forall n t, in_zone apex n -> ~ has_type (strip l) n t -> t <> 46 -> t <> 47 ->
+       ~ (dk = true /\ name_eqb n apex = true /\ t = 48) ->
+       exists r, In r out /\
+         ((name_eqb (n_owner r) n = true /\ bm_contains (n_types r) t = Ok false) \/ nsec_covers r n)) /\
+  (forall out, generate_nsec3s H apex c (strip (sorted_records l)) = Ok out ->
+     forall n,
+     (forall a, included apex (strip l) (optout_excl c) a -> hashn H c a = hashn H c n -> name_eqb a n = true) ->
+     forall t, ~ has_type (strip l) n t -> t <> 46 ->
+       ~ (name_eqb n apex = true /\ (t = 51 \/ (c_dnskey c = true /\ t = 48))) ->
+       exists r, In r out /\
+         ((h_owner r = hashn H c n /\ bm_contains (h_types r) t = Ok false) \/ h3_covers r (hashn H c n))).
+Proof. exact sorted_records_denies. Qed.
+Print Assumptions C13_sorted_records_denies.
